@@ -461,6 +461,15 @@ func (g *TGen) stmt() []*Node {
 				}
 			}
 			e := g.Expr(t, g.c.MaxDepth)
+			if g.c.PureParamAssign && t == TInt {
+				// re-binding an integer parameter: only arithmetic that can't produce anything but an integer
+				// (an index out of range or a missing field gives nil, which a register can't hold: K-C05-2)
+				for _, v := range g.vars(func(v tvar) bool { return v.name == name && (v.param || v.loop) }) {
+					_ = v
+					e = g.pureInt(2)
+					break
+				}
+			}
 			nv := tvar{name: name, t: t}
 			// re-declaring a parameter (a := a) does not make it an ordinary variable: it may still live in a register
 			for _, v := range g.vars(func(v tvar) bool { return v.name == name }) {
